@@ -101,35 +101,45 @@ def close(a, b, rtol):
 
 
 def near_critical(ctx):
-    """corpus: a loop whose weight is just below 1, S -> a S | b with a = 1 - 2^-k (exactly representable), Z = b 2^k: finite, large,
-    and solved by `linear` / `newton` through star(a).  In the Log semiring star must stay accurate as log a -> 0 (the library
-    evaluates -log(-expm1(x)) there): the Log result is the logarithm of the Real result and float32 / float64 agree within their
-    precision, far from the 1e-2 of the test suite"""
+    """corpus: a loop whose weight is just below 1, S -> a S | b with log a = -10^-e (NOT a dyadic weight: 1 - exp(log a) must be
+    computed, not looked up), Z = b / (1 - a): finite, large, and solved by `linear` / `newton` through star(a).  In the Log semiring
+    star must stay accurate as log a -> 0 (the library evaluates -log(-expm1(x)) there): the result is compared with the closed form
+    log b - log(-expm1(x)), x being the log-weight as the dtype holds it — to the dtype's precision, far from the 1e-2 of the test suite"""
+    import numpy as np
     from . import o_server
-    for k, dt, tol in ((8, 'float32', 2e-6), (12, 'float32', 2e-6), (16, 'float32', 2e-6), (20, 'float64', 1e-12), (30, 'float64', 1e-12), (40, 'float64', 1e-12)):
-        a, b = 1.0 - 2.0 ** -k, 0.5
+    for e, dt, tol in ((3, 'float32', 4e-6), (4, 'float32', 4e-6), (4.5, 'float32', 4e-6), (5, 'float32', 4e-6),
+                       (8, 'float64', 1e-13), (9.5, 'float64', 1e-13), (10, 'float64', 1e-13), (11.3, 'float64', 1e-13), (12, 'float64', 1e-13)):
+        a, b = math.exp(-10.0 ** -e), 0.5
         shape = dict(nls=[1], terms=[[], []], nts=[[]], start=0,
                      rules=[dict(lhs=0, nodes=[], ext=[], edges=[('t', 0, []), ('n', 0, [])]), dict(lhs=0, nodes=[], ext=[], edges=[('t', 1, [])])],
                      weights={0: [a], 1: [b]}, vweights={0: [0.0], 1: [0.0]}, bweights={0: [1.0], 1: [1.0]})
-        want = math.log(b) + k * math.log(2.0)
+        x = math.log(a)                                  # what the harness hands to the Log semiring (semgen.weight_map)
+        xd = float(np.float32(x)) if dt == 'float32' else x
+        want_log = math.log(b) - math.log(-math.expm1(xd))
+        ad = float(np.float32(a)) if dt == 'float32' else a
+        want_real = math.log(b) - math.log1p(-ad) if ad < 1 else math.inf
         for method in ('linear', 'newton'):
             for name in ('log', 'real'):
                 req = dict(shape=json.loads(json.dumps(shape)), semiring=name, method=method, j_precompute=False, dtype=dt, grad=False)
                 case = dict(shape=shape, config=[name, method, False, dt], family='near-critical-loop')
                 ctx.evaluations += 1
                 ctx.count('near-critical-loop')
-                ctx.case(case, ('near-critical', k, dt, method, name), sample_every=6)
+                ctx.case(case, ('near-critical', e, dt, method, name), sample_every=6)
                 try:
                     rep = o_server.evaluate(req)
-                except Exception as e:  # noqa
-                    ctx.fail(f'{name}/{method}/{dt}: raised {type(e).__name__} on a loop of weight 1 - 2^-{k}', case, repr(e), want, tags=['near-critical', name, method, dt, 'raises'])
+                except Exception as ex:  # noqa
+                    ctx.fail(f'{name}/{method}/{dt}: raised {type(ex).__name__} on a loop of log-weight -1e-{e}', case, repr(ex), want_log,
+                             tags=['near-critical', name, method, dt, 'raises'])
                     continue
                 v = rep['value'][0]
-                got = v if name == 'log' else (math.log(v) if v > 0 else -math.inf)
-                # relative to log Z for Log (the representation the semiring computes in), relative to Z for Real
-                err = abs(got - want) if name == 'real' else abs(got - want) / max(1.0, abs(want))
-                if rep.get('warned') or not err <= tol * (k if name == 'real' else 1) * 8:
-                    ctx.fail(f'{name}/{method}/{dt}: log Z = {got!r} for the loop of weight 1 - 2^-{k}; the closed form is {want!r}', case, got, want,
+                if name == 'log':
+                    got, want, err = v, want_log, abs(v - want_log) / max(1.0, abs(want_log))
+                else:
+                    # Real: 1 - a is a subtraction of nearly equal numbers, exact in floating point; Z = b / (1 - a) to a few ulps
+                    got = math.log(v) if v > 0 else -math.inf
+                    want, err = want_real, abs(got - want_real)
+                if rep.get('warned') or not err <= 8 * tol:
+                    ctx.fail(f'{name}/{method}/{dt}: log Z = {got!r} for the loop of log-weight -1e-{e}; the closed form is {want!r}', case, got, want,
                              tags=['near-critical', name, method, dt, 'value'])
 
 
